@@ -14,6 +14,8 @@ EXPLANATION = (
     "predicate is evaluated over a representative byte-pattern domain and must select exactly 0.0.0.x, x!=0; "
     "(R4) parse_udp_relay_header: bounds check = consumption (S4) and layout per address type; (R5) a "
     "NUL-terminated field's terminator is checked before it is stripped.")
+EXPLANATION_ADDED2 = '(R6) the reply codes passed by the client front end belong to the protocol version of the writer and are the success code exactly after the channel is established.'
+EXPLANATION = EXPLANATION + " Added while testing against seeded changes: " + EXPLANATION_ADDED2
 ASSUMPTIONS = [
     "tokio AsyncReadExt::read_uN read big-endian fixed widths; read_exact fills the whole buffer; "
     "read_until stops at the delimiter or EOF (library contracts)",
